@@ -24,7 +24,7 @@ func init() {
 		Explain: "Decides: (G) in the module's implementation of parser.IDs.Generate every returned id r is (i) inserted — a map update on the receiver's table with a key that is r up to pure conversions happens on the path to the return, (ii) new — that update lies under the miss edge of a comma-ok lookup of the same key in the same table, (iii) non-empty — r is either a formatted string with a constant non-empty part or a value that reaches the return only along edges on which len(r) != 0 holds or a non-empty constant was substituted; Put inserts its argument; so within one table generated ids are pairwise distinct, distinct from every id put or generated before, and never empty; (T) Parse obtains its context, when the caller passed none, from a constructor call made in that Parse activation, and the constructor fills the ids field from a function that allocates a new table (together with C06-S: nothing caches it); (H) every block parser whose Open can return a heading has a Close in which, under the auto-id flag, every path either puts an existing id into the table or generates one and stores it as the attribute named id. Not decided: that the renderer prints the attribute (C03 covers how), uniqueness against explicit {#id} attributes given later in the document (excluded by the statement), the slug's content.",
 		Trusted: []string{"Go map semantics", "fmt.Sprintf with a constant format"},
 		Assumes: []string{"a caller-supplied IDs implementation or Context is out of scope"},
-		Rules:   []func(*World, *Report){ruleIDGenerator, ruleTablePerDocument, ruleHeadingsServed},
+		Rules:   []func(*World, *Report){ruleIDGenerator, ruleTablePerDocument, ruleHeadingsServed, ruleConstructorsApplyOptions},
 	})
 }
 
